@@ -33,7 +33,7 @@ class C01(rowgen.RowGenProp):
             else:
                 spec = gens.rand_comp_spec(rng)
             yield rowgen.gen_case(rng, spec, rng.randint(2, 60), call_p=0.15, reset_p=0.03)
-        for i in range(40 if tier == "quick" else 600):
+        for i in range(120 if tier == "quick" else 900):
             yield self.bot_session(rng)
         for i in range(25 if tier == "quick" else 300):
             yield self.server_session(rng)
@@ -47,19 +47,33 @@ class C01(rowgen.RowGenProp):
         row_t = w * N + 0.01 * N
         t = 1000.3 + rng.random()
         events = []
+        touches = []
         on_join = scen.humans_on_join([], "Wheatley", list(range(1, 17)))
+        N0 = N
         for k in range(rng.choice([2, 2, 3])):
+            if k > 0 and N < 12 and rng.random() < 0.35:
+                # the tower is made bigger just before the touch - the Look To follows within milliseconds
+                old = N
+                N = N + rng.choice([1, 2, 2, 4])
+                row_t = w * N + 0.01 * N
+                dt = rng.choice([0.003, 0.008, 0.05, 0.3])
+                events.append([t - dt, "msg", {"m": "size_change", "size": N}])
+                # (Ringing Room gives the new ropes to Wheatley)
+                events += [[t - dt + 0.0003 * (i + 1), "msg", {"m": "assign", "bell": b, "user": 5}]
+                           for i, b in enumerate(range(old + 1, N + 1))]
             stage = rng.randint(4, N)
             events.append([t - 0.2, "msg", method_msg(stage)])
             events.append(scen.call(t, scen.LOOK_TO))
+            touches.append([t, N])
             t_stand = t + rng.uniform(4, 8) * row_t
             events.append(scen.call(t_stand, scen.STAND))
             t = t_stand + 3 * row_t + 0.5 + rng.random()
-        sc = {"start": 1000.0, "end": t, "tower_size": N, "events": events, "on_join": on_join,
+        events.sort(key=lambda e: e[0])
+        sc = {"start": 1000.0, "end": t, "tower_size": N0, "events": events, "on_join": on_join,
               "bot": scen.bot_cfg({"type": "placeholder"}, up_down_in=True, stop_at_rounds=False,
                                   user_name="Wheatley", server_id=rng.randint(1, 9)),
               "rhythm": scen.stub_rhythm(w)}
-        return {"k": "world", "scenario": sc, "server": True}
+        return {"k": "world", "scenario": sc, "server": True, "touches": touches}
 
     def bot_session(self, rng):
         """The rows the Bot rings (with cover bells) in a tower at least as big as the method."""
@@ -80,8 +94,18 @@ class C01(rowgen.RowGenProp):
             if ty == "stedman" and stage % 2 == 0:
                 stage -= 1
             spec = {"type": ty, "stage": stage, "start_row": None}
-        if rng.random() < 0.6:
-            k = max(1, min(N, rng.choice([stage - 1, stage, stage + 1, stage + 2, N])))
+        if rng.random() < 0.3 and spec["type"] in ("pn", "plainhunt"):
+            # the tower sizes Ringing Room offers, a start row that leaves up to four of the bells out, a method on
+            # more bells than the start row names (it is completed for the stage first, then for the tower)
+            N = rng.choice([8, 10, 10, 12, 14, 16])
+            k = N - rng.choice([1, 2, 3, 4])
+            stage = rng.choice([k, min(N, k + 1), min(N, k + 2), N])
+            spec = {"type": "plainhunt", "stage": stage, "start_row": None}
+            bells = list(range(1, k + 1))
+            rng.shuffle(bells)
+            spec["start_row"] = "".join(gens.BELLS[b - 1] for b in bells)
+        elif rng.random() < 0.6:
+            k = max(1, min(N, rng.choice([stage - 1, stage - 2, stage - 3, stage, stage + 1, stage + 2, N])))
             bells = list(range(1, k + 1))
             rng.shuffle(bells)
             spec["start_row"] = "".join(gens.BELLS[b - 1] for b in bells)
@@ -153,6 +177,16 @@ class C01(rowgen.RowGenProp):
         if req["k"] == "world":
             if reply["crashed"] or reply["handler_crashes"]:
                 return f"crash: main={reply['crashed']} handlers={reply['handler_crashes']}"
+            if req.get("touches"):
+                tt = req["touches"] + [[float("inf"), 0]]
+                for k in range(len(tt) - 1):
+                    t_from, Nk = tt[k]
+                    bells = [b for (t, b, _) in reply["strikes"] if t_from <= scen.b2f(t) < tt[k + 1][0]]
+                    for i in range(0, len(bells) - len(bells) % Nk, Nk):
+                        if sorted(bells[i:i + Nk]) != list(range(1, Nk + 1)):
+                            return (f"touch {k + 1}, row {i // Nk} rung by the Bot = {bells[i:i + Nk]} is not each of the "
+                                    f"{Nk} tower bells exactly once")
+                return None
             N = req["scenario"]["tower_size"]
             for i, r in enumerate(scen.rows_from_strikes(reply, N)):
                 if sorted(r) != list(range(1, N + 1)):
